@@ -96,7 +96,16 @@
   function collect(win, custom) {
     const doc = win.document; const rows = [];
     // running transitions/animations would be read mid-way: jump them to their end (or cancel endless ones)
-    try { for (const a of doc.getAnimations()) { try { a.finish(); } catch (e) { a.cancel(); } } } catch (e) {}
+    // (finishing a transition on an ancestor changes inherited values and can start new transitions on descendants:
+    // repeat until a style recalculation leaves nothing running)
+    try {
+      for (let round = 0; round < 30; round++) {
+        void win.getComputedStyle(doc.documentElement).opacity;
+        const running = doc.getAnimations().filter(a => a.playState !== 'finished' && a.playState !== 'idle');
+        if (!running.length) break;
+        for (const a of running) { try { a.finish(); } catch (e) { a.cancel(); } }
+      }
+    } catch (e) {}
     const els = doc.querySelectorAll('[data-e]');
     for (const el of els) {
       for (const pseudo of [null, '::before', '::after']) {
